@@ -35,7 +35,7 @@ def gen_family(rng):
         # met later in the loop: patterns that back different summands make the result the semiring zero -- a failure
         # that must survive the successful unifications that follow it
         U = ('u', [('n', rng.choice([1, 2])), ('n', rng.choice([1, 2]))])
-        ti = rng.choice([U, U, ('x', [U, ('n', 2)]), ('x', [('n', 2), U]), ('u', [('n', 1), ('n', 1), ('n', 2)])])
+        ti = rng.choice([U, ('x', [U, ('n', 2)]), ('x', [U, ('n', 2)]), ('x', [('n', 2), U]), ('x', [('n', 2), U]), ('u', [('n', 1), ('n', 1), ('n', 2)])])
         tj = rng.choice([('n', 2), ('n', 3), ('x', [('n', 2), ('n', 2)])])
         form = rng.choice(['ij,ij', 'ij,ij', 'i,i,ij', 'ij,i,j', 'ij,ji', 'i,ij,i', 'i,i'])
         inputs = [list(x) for x in form.split(',')]
@@ -120,10 +120,10 @@ def gen_signature0(rng):
     return {n: types[n] for n in used}, inputs, out
 
 
-def carrier_pattern(rng, kind, types, start_id, allow_inf=True, share=None, bcast=False):
+def carrier_pattern(rng, kind, types, start_id, allow_inf=True, share=None, bcast=False, p_whole=0.4):
     vals = [v for v in VALS[kind] if allow_inf or abs(v) < INF]
     d = rng.choice([ZERO[kind]] * 4 + [ONE[kind], rng.choice(vals)])
-    st = PT.gen_pattern(rng, types, default=d, start_id=start_id, **({} if share is None else {'share': share}))
+    st = PT.gen_pattern(rng, types, default=d, start_id=start_id, p_whole=p_whole, **({} if share is None else {'share': share}))
     st['ph'] = [rng.choice(vals) for _ in st['ph']]
     if st['ps'] and (bcast or rng.random() < 0.4) and all(p['n'] > 0 for p in st['ps']):
         # constant along a random non-empty subset E of the physical axes: built as a stride-0 expanded view
@@ -184,7 +184,8 @@ def drive(args):
     ops = []
     for k, lab in enumerate(inputs):
         st = carrier_pattern(rng, kind, [types[n] for n in lab], 1 + 20 * k, allow_inf=True,
-                             share=hints['share'][k] if hints['share'] else None, bcast=hints['fam'] == 'bcast')
+                             share=hints['share'][k] if hints['share'] else None, bcast=hints['fam'] == 'bcast',
+                             p_whole=0.1 if hints['fam'] == 'disjoint' else 0.4)
         c['ops'].append({'ps': st['ps'], 'vs': st['vs'], 'd': st['d'], 'ph': st['ph']})
         ops.append(build_real(st, kind, dtype))
     for (k1, k2, how) in hints.get('alias', []):
